@@ -264,6 +264,38 @@ func (x *Exec) reflectStub(fn *ssa.Function, args []Val) (Val, bool) {
 			a.E[i] = &Cell{V: x.zero(sl.Elem())}
 		}
 		return RValV{T: t, V: SliceV{A: a, Len: n, Cap: c}}, true
+	case "reflect.Append":
+		// a fresh backing array holding the old elements followed by the new ones
+		r := args[0].(RValV)
+		sl, ok := r.T.Underlying().(*types.Slice)
+		if !ok {
+			panic(panicV{msg: "reflect.Append of non-slice type"})
+		}
+		old, _ := r.val().(SliceV)
+		var cells []*Cell
+		for i := 0; i < old.Len; i++ {
+			cells = append(cells, &Cell{V: copyVal(old.A.E[old.Off+i].V)})
+		}
+		for _, a := range sliceVals(args[1]) {
+			av := a.(RValV)
+			if av.T == nil || !assignable(av.T, sl.Elem()) {
+				panic(panicV{msg: "reflect.Append: value is not assignable to the element type"})
+			}
+			ev := copyVal(av.val())
+			if _, isI := sl.Elem().Underlying().(*types.Interface); isI {
+				if _, srcI := av.T.Underlying().(*types.Interface); !srcI {
+					ev = IfaceV{T: av.T, V: ev}
+				}
+			}
+			cells = append(cells, &Cell{V: ev})
+		}
+		if len(cells) == 0 {
+			return RValV{T: r.T, V: SliceV{}}, true
+		}
+		return RValV{T: r.T, V: SliceV{A: &ArrV{E: cells}, Len: len(cells), Cap: len(cells)}}, true
+	case "reflect.DeepEqual":
+		a, b := args[0].(IfaceV), args[1].(IfaceV)
+		return x.deepEqual(a, b, map[[2]*Cell]bool{}, 0), true
 	case "reflect.Indirect":
 		r := args[0].(RValV)
 		if _, ok := r.T.Underlying().(*types.Pointer); !ok {
@@ -669,4 +701,87 @@ func (x *Exec) rvElem(r RValV) RValV {
 		return RValV{T: iv.T, V: iv.V, StickyRO: r.ro()}
 	}
 	panic(panicV{msg: "reflect: call of reflect.Value.Elem on " + typeString(r.T) + " Value"})
+}
+
+// deepEqual: reflect.DeepEqual over engine values (interfaces, pointers, structs, arrays, slices,
+// strings, integers, booleans); maps and anything else are not modelled.
+func (x *Exec) deepEqual(a, b Val, seen map[[2]*Cell]bool, depth int) BoolV {
+	if depth > 12 {
+		panic(unsupported{"reflect.DeepEqual: nesting too deep"})
+	}
+	switch av := a.(type) {
+	case IfaceV:
+		bv, ok := b.(IfaceV)
+		if !ok {
+			return cbool(false)
+		}
+		if av.T == nil || bv.T == nil {
+			return cbool(av.T == nil && bv.T == nil)
+		}
+		if !types.Identical(av.T, bv.T) {
+			return cbool(false)
+		}
+		return x.deepEqual(av.V, bv.V, seen, depth+1)
+	case PtrV:
+		bv, ok := b.(PtrV)
+		if !ok {
+			return cbool(false)
+		}
+		if av.C == nil || bv.C == nil {
+			return cbool(av.C == nil && bv.C == nil)
+		}
+		if av.C == bv.C {
+			return cbool(true)
+		}
+		k := [2]*Cell{av.C, bv.C}
+		if seen[k] {
+			return cbool(true)
+		}
+		seen[k] = true
+		return x.deepEqual(av.C.V, bv.C.V, seen, depth+1)
+	case *StructV:
+		bv, ok := b.(*StructV)
+		if !ok || len(av.F) != len(bv.F) {
+			return cbool(false)
+		}
+		for i := range av.F {
+			if !x.branch(x.deepEqual(av.F[i].V, bv.F[i].V, seen, depth+1)) {
+				return cbool(false)
+			}
+		}
+		return cbool(true)
+	case StructV:
+		bv, ok := b.(StructV)
+		if !ok {
+			return cbool(false)
+		}
+		return x.deepEqual(&av, &bv, seen, depth)
+	case SliceV:
+		bv, ok := b.(SliceV)
+		if !ok || av.Len != bv.Len || (av.A == nil) != (bv.A == nil) {
+			return cbool(false)
+		}
+		for i := 0; i < av.Len; i++ {
+			if !x.branch(x.deepEqual(av.A.E[av.Off+i].V, bv.A.E[bv.Off+i].V, seen, depth+1)) {
+				return cbool(false)
+			}
+		}
+		return cbool(true)
+	case *ArrV:
+		bv, ok := b.(*ArrV)
+		if !ok || len(av.E) != len(bv.E) {
+			return cbool(false)
+		}
+		for i := range av.E {
+			if !x.branch(x.deepEqual(av.E[i].V, bv.E[i].V, seen, depth+1)) {
+				return cbool(false)
+			}
+		}
+		return cbool(true)
+	case StrV, BV, BoolV:
+		return x.valEq(a, b)
+	case nil:
+		return cbool(b == nil)
+	}
+	panic(unsupported{fmt.Sprintf("reflect.DeepEqual over %T", a)})
 }
